@@ -9,30 +9,43 @@ import vlib
 META = {
     "property_id": "C10",
     "level": "proof",
-    "technique": "Coq theorem over all histories of Get/MustGet/GetOrDefault on a model of getFromCache (memo keyed by (key, reflect.Type), one atomic step per request) + translator tie (getFromCache regenerated as Gallina over memo entries with dynamic types, xsync Compute and the final type assertion; proved to refine the model and never to panic) + in-kernel correspondence of model, fresh-Config results and the real gconfig on generated histories over colliding keys/types; concurrent mixes with the race detector in the thorough tier",
+    "technique": "Coq theorem over all histories of Get/MustGet/GetOrDefault on a model of getFromCache (memo keyed by (key, reflect.Type), one atomic step per request) + semantic translator tie (extractAndConvert, getFromCache, Get, MustGet, GetOrDefault and their helpers regenerated as Gallina over memo entries with dynamic types, xsync Compute, the final type assertion and a yaml decoder that may panic; proved to refine the model and never to panic) + in-kernel correspondence of model, fresh-Config results and the real gconfig on generated histories over colliding keys/types; concurrent mixes with the race detector in the thorough tier",
     "design_ref": "DESIGN.md §4 C10",
-    "level_text": "Proof: GConfCacheProofs.v shows for every history (any length) of Get/MustGet/GetOrDefault over any keys and result types that each request returns exactly what the same request returns on a freshly loaded Config (run_all_fresh), that no request panics other than MustGet reporting the conversion's error, that removing a request never changes the others, and that every interleaving of goroutines whose requests are atomic steps is such a history (Props/C10.v, closed under the global context); the conversion extractAndConvert is a Section function (deterministic, cache-independent). The pinned code is kept as get_cached_orig with two machine-checked counterexamples (memo-string collision; nil interface). Tied to the source (T) by xlate_gconf -set cache + coq/ties/Tie_C10.v (refinement of the model by the regenerated getFromCache) and (C) by running histories on the real library and comparing every outcome with a fresh Config and with the model inside Coq.",
-    "level_note": "Partial: atomicity of xsync.MapOf.Compute per key and data-race freedom are assumed by the model (exercised by 16 goroutines under the race detector in the thorough tier). Trusted: Coq kernel + vm_compute; fidelity of GConfCacheModel.v (correspondence); determinism of yaml re-marshal conversion (recorded per case from fresh Configs). No axioms.",
+    "level_text": "Proof: GConfCacheProofs.v shows for every history (any length) of Get/MustGet/GetOrDefault over any keys and result types that each request returns exactly what the same request returns on a freshly loaded Config (run_all_fresh), that no request panics other than MustGet reporting the conversion's error, that removing a request never changes the others, and that every interleaving of goroutines whose requests are atomic steps is such a history (Props/C10.v, closed under the global context); the conversion extractAndConvert is modelled over yaml encoder/decoder oracles where the decoder may return a value, an error or PANIC (GConfConvModel.conv_model: path walk over the dotted key, re-encode, decode into T, a panic recovered into an error), and the theorems C10_no_panic_any_decoder / C10_decoder_panic_is_error hold for every such decoder. The pinned code is kept as get_cached_orig with two machine-checked counterexamples (memo-string collision; nil interface) and HEAD before fix C10-conversion-panic as get_cached_head (decoder panic escaped inside xsync's Compute and left the bucket locked). Tied to the source (T) by xlate_gconf -set cache + coq/ties/Tie_C10.v: semantic lemmas, for all arguments and whatever helpers/closure forms/statement order the source uses — the regenerated extractAndConvert is total and equals conv_model, the regenerated getFromCache refines the model and never panics, the regenerated Get/MustGet/GetOrDefault are run_op and (C) by running histories on the real library and comparing every outcome with a fresh Config and with the model inside Coq.",
+    "level_note": "Assumption (outside the property): callers do not mutate the slices/maps/pointers Get hands out (the memo hands out the same object again; a fresh Config would return the original). Partial: atomicity of xsync.MapOf.Compute per key and data-race freedom are assumed by the model (exercised by 16 goroutines under the race detector in the thorough tier). Trusted: Coq kernel + vm_compute; fidelity of GConfCacheModel.v (correspondence); determinism of yaml re-marshal conversion (recorded per case from fresh Configs). No axioms.",
     "allowed_axioms": [],
 }
 
 TRUSTED = [
     "Coq 8.16.1 kernel and VM (vm_compute); no axioms",
     "hand-written model coq/theories/GConfCacheModel.v of gconfig/config.go (getFromCache, Get, MustGet, GetOrDefault), tied by correspondence only",
-    "extractAndConvert (path walk + yaml.v3 re-marshal into T) is deterministic and independent of the memo: a Section function in the proofs, recorded per case from freshly loaded Configs",
+    "yaml.v3 Marshal / Unmarshal-into-T are oracles (value, error, or panic of the decoder); that they are deterministic per (value, type) is recorded per case from freshly loaded Configs",
     "github.com/puzpuzpuz/xsync/v3 MapOf.Compute is atomic per key (assumption of the concurrent clause); Go memory model / race detector for data-race freedom",
-    "Go harness harness/cmd/c10 (type registry, canonical JSON rendering of results, panic classification), Go 1.23 toolchain",
+    "Go harness harness/cmd/c10 (type registry, canonical JSON rendering of results, panic classification, watchdog: a request that does not return within 2 s — counted in ticks, so a starved process waits longer — is recorded as a hang = OPanic), Go 1.23 toolchain",
 ]
 
 HEADER = ("From Coq Require Import List String Ascii.\nImport ListNotations.\n"
           "From GT Require Import Base.Verdict GConfModel GConfJudge GConfCacheModel GConfCacheJudge.\n"
           "Local Open Scope string_scope.\n")
 CASE = "c10_case"
+# result types yaml.v3 cannot decode a present value into without panicking (harness: `hard`)
+HARD_TYPES = ("main.W", "fmt.Stringer", "main.Dup", "main.E", "*main.W", "[]fmt.Stringer", "map[string]fmt.Stringer")
 # developer switch: VERIF_C10_JUDGE=c10_judge_orig judges against the model of the pinned code
 JUDGE = os.environ.get("VERIF_C10_JUDGE", "c10_judge")
 
 
+def is_hang(o):
+    """the harness's watchdog gave up waiting for the request (recorded as a panic outcome)"""
+    return o["kind"] == "panic" and o.get("msg", "").startswith("hang:")
+
+
 def shape(j):
+    # a request that never returns is the gravest: it names the shape even when an earlier
+    # request of the same history panicked (which is usually how the memo got stuck)
+    if any(is_hang(f) for f in j["fresh"]):
+        return "request_never_returns_on_fresh_config"
+    if any(is_hang(o) for o in j["obs"]):
+        return "request_never_returns"
     for o, f in zip(j["obs"], j["fresh"]):
         if f["kind"] == "panic":
             return "panic_on_fresh_config"
@@ -45,32 +58,70 @@ def features(j):
     return {"kind": j.get("kind", "").split("/")[0], "shape": shape(j)}
 
 
+def req_text(j, q):
+    names = j.get("labels") or j["types"]
+    return "%s[%s](%r)" % (q["op"], names[q["ty"]], q["key"])
+
+
 def view(j):
     n = len(j["ops"])
     rows = []
     for q, o, f in list(zip(j["ops"], j["obs"], j["fresh"]))[:12]:
-        rows.append({"request": "%s[%s](%r)" % (q["op"], j["types"][q["ty"]], q["key"]),
-                     "shared": o, "fresh": f})
+        rows.append({"request": req_text(j, q), "shared": o, "fresh": f})
     v = {"kind": j["kind"], "requests": n, "first_requests": rows}
     if j.get("goroutines"):
         v["goroutines"] = j["goroutines"]
     bad = [i for i, (o, f) in enumerate(zip(j["obs"], j["fresh"])) if o != f or o["kind"] == "panic"]
     if bad:
         i = bad[0]
-        q = j["ops"][i]
-        v["first_bad_request"] = {"index": i, "request": "%s[%s](%r)" % (q["op"], j["types"][q["ty"]], q["key"]),
+        v["first_bad_request"] = {"index": i, "request": req_text(j, j["ops"][i]),
                                   "shared": j["obs"][i], "fresh": j["fresh"][i]}
+    hung = [i for i, o in enumerate(j["obs"]) if is_hang(o)]
+    if hung:
+        i = hung[0]
+        v["first_request_that_never_returned"] = {
+            "index": i, "request": req_text(j, j["ops"][i]), "fresh": j["fresh"][i],
+            "requests_that_never_returned": len(hung),
+            "note": "the harness's watchdog gave up; nothing more was issued on this Config by the goroutine "
+                    "that is stuck (sequential histories end here)"}
     v["document"] = "see input.yaml (%d bytes)" % len(j["yaml"])
     return v
 
 
+def hint(j):
+    """where a sequential history went wrong, for the minimiser: replaying a hang costs the
+    watchdog's timeout, so such cases get a handful of directed candidates instead of the sweep"""
+    if j.get("kind", "").split("/")[0] in ("concurrent", "stress"):
+        return None
+    sh = shape(j)
+    if sh == "panic_on_fresh_config":
+        return {"single": [i for i, f in enumerate(j["fresh"]) if f["kind"] == "panic"][0]}
+    if sh == "request_never_returns":
+        i = [k for k, o in enumerate(j["obs"]) if is_hang(o)][0]
+        q = j["ops"][i]
+        before = [p for p in range(i) if j["obs"][p]["kind"] == "panic"]
+        # an earlier panicking request for the same (key, type) first: the deterministic deadlock
+        before.sort(key=lambda p: (not (j["ops"][p]["key"] == q["key"] and j["ops"][p]["ty"] == q["ty"]), p))
+        return {"pairs": [[p, i] for p in before[:4]]}
+    return None
+
+
 def to_input(j):
-    return {"ops": j["ops"], "yaml": j["yaml"]}
+    inp = {"ops": j["ops"], "yaml": j["yaml"]}
+    h = hint(j)
+    if h:
+        inp["hint"] = h
+    return inp
 
 
 def variants(inp):
     ops = inp["ops"]
     n = len(ops)
+    h = inp.get("hint")
+    if h:
+        # directed candidates only (they carry no hint: the next round is the ordinary sweep)
+        idx = [[h["single"]]] if "single" in h else h.get("pairs", [])
+        return [{"ops": [ops[k] for k in ks], "yaml": inp.get("yaml", "")} for ks in idx if len(ks) < n]
     out, seen = [], set()
     for g in (2, 4, 8, 16, n):
         if g > n or g < 2:
@@ -94,7 +145,7 @@ def size(inp):
 def run(ctx):
     ctx.trusted = TRUSTED
     ctx.assumptions = [
-        "callers do not mutate the slices/maps/pointers Get hands out (the memo returns the same object again)",
+        "callers do not mutate the slices/maps/pointers Get hands out (the memo hands out the same object again; a fresh Config would return the original)",
         "xsync.MapOf.Compute runs its function atomically per key (concurrent clause; partial)",
         "the Config is not reloaded between requests; cfg.data is never written after FromBytes"]
     d = gl.Deferred(ctx)
@@ -135,8 +186,10 @@ def run(ctx):
         "shape": shape, "features": features, "view": view, "to_input": to_input,
         "variants": variants, "size": size,
         "minimise": lambda j: j["kind"].split("/")[0] not in ("concurrent", "stress"),
-        "min_kw": {"cap": 64, "budget_s": 25},
-        "verdict": lambda code: {1: "a request answered differently from the same request on a fresh Config, or panicked",
+        # candidates are replayed with a short watchdog timeout: on a tree where requests hang every
+        # hanging candidate costs the timeout
+        "min_kw": {"cap": 64, "budget_s": 25, "replay_args": ["-timeout", "500ms"]},
+        "verdict": lambda code: {1: "a request answered differently from the same request on a fresh Config, panicked, or never returned",
                                  2: "outcomes agree with fresh Configs but differ from the Coq model of getFromCache"}[code],
     })
     if res is None:
@@ -164,14 +217,18 @@ def run(ctx):
         "result_types": len(jsons[0]["types"]) if jsons else 0,
         "by_kind": gl.hist(j["kind"] for j in jsons),
         "op_histogram": gl.hist(q["op"] for q in reqs),
-        "outcome_histogram": gl.hist(o["kind"] for j in jsons for o in j["obs"]),
+        "outcome_histogram": gl.hist("hang" if is_hang(o) else o["kind"] for j in jsons for o in j["obs"]),
+        "requests_with_undecodable_result_type": len([q for j in jsons for q in j["ops"]
+                                                      if (j.get("labels") or j["types"])[q["ty"]] in HARD_TYPES]),
         "history_length_histogram": gl.hist(min(len(j["ops"]) // 50 * 50, 1000) for j in jsons),
         "race_detector": race_note,
         "stress": {"rounds": max([j.get("stress_rounds", 0) for j in jsons] or [0]),
                    "goroutines": 16, "requests_per_goroutine": 12,
                    "rounds_with_a_deviating_outcome": max([j.get("stress_mismatch_rounds", 0) for j in jsons] or [0]),
+                   "wide_window_rounds": max([j.get("wide_rounds", 0) for j in jsons] or [0]),
+                   "wide_window_rounds_with_a_deviating_outcome": max([j.get("wide_mismatch_rounds", 0) for j in jsons] or [0]),
                    "note": "schedule-free: every round a fresh Config, all goroutines released at once on the "
-                           "same collision-prone request list; outcomes compared with fresh Configs in the "
+                           "same collision-prone request list; wide-window rounds: every goroutine's first request converts a 400-item list under its own key, so the first conversions of 16 keys overlap by construction; outcomes compared with fresh Configs in the "
                            "harness, deviating rounds (and the first two) judged in Coq like any history"},
         "exhaustive": False,
         "samples": [view(j) for j in jsons[:2] + jsons[-1:]],
